@@ -68,7 +68,11 @@ def scenario(main, body, imr0, timer, kb_irq=True, read_kil=True):
     # (the store to 0xC0200 aims at the ROM window: it must stay without effect before and after a restore)
     loop = (bytes([0x32, 0x80, 0xF2, 0xB0, 0x24, 0x6C, 0x00, 0xA8, 0x02, 0x20, 0x00, 0xA8, 0x00, 0x02, 0x0C,
                    # memory-card window: store, load back, keep the loaded value (B0 24: [X++] <- A); LCD status read
-                   0xA8, 0x10, 0x00, 0x04, 0x88, 0x10, 0x00, 0x04, 0xB0, 0x24, 0x88, 0x01, 0x20, 0x00, 0xB0, 0x24,
+                   0xA8, 0x10, 0x00, 0x04, 0x88, 0x10, 0x00, 0x04, 0xB0, 0x24,
+                   # the very last byte of the 64 KiB card window: load (what an earlier round / a restore left there), keep,
+                   # then store the non-zero value just read back from 0x40010
+                   0x88, 0xFF, 0xFF, 0x04, 0xB0, 0x24, 0x88, 0x10, 0x00, 0x04, 0xA8, 0xFF, 0xFF, 0x04,
+                   0x88, 0x01, 0x20, 0x00, 0xB0, 0x24,
                    # LCD data read on the left chip (advances its column counter without any write), value kept
                    0x88, 0x0B, 0x20, 0x00, 0xB0, 0x24,
                    0x04, SUB & 0xFF, (SUB >> 8) & 0xFF]) + SLEEPS[main])
